@@ -114,6 +114,17 @@ package home
 //@   property C14
 //@   modifies *
 
+// ---- C08: the client record handed to the query log carries the persistent client's ignore flag ----
+// (whatever else is known about the address - a runtime record from rDNS, DHCP or ARP must not hide it)
+// (the access check asked about the client reads the access lists and changes nothing here: assumed for the interface)
+//@ func (c BlockedClientChecker) IsBlockedClient(ip netip.Addr, clientID string) (blocked bool, rule string)
+//@   modifies nothing
+//@ func (clients *clientsContainer) clientOrArtificial(ip netip.Addr, id string) (c *querylog.Client, art bool)
+//@   property C08
+//@   requires nolocks()
+//@   ensures ignore-flag-carried: looseFound ==> c != nil && c.IgnoreQueryLog == looseIgnoreLog
+//@   modifies *
+
 // ---- C16: the DNS server is reconfigured with the TLS settings just accepted (server name included) ----
 // tlsConfGen counts the stores of new TLS settings; the reconfiguration of the DNS server reads the stored settings, so
 // the store has to come first - otherwise the server keeps deriving ClientIDs from the previous server name.
